@@ -197,11 +197,10 @@ def marks_from_choices(w, o):
         pat = o.weighted([('few', 5), ('single', 3), ('block', 3), ('all', 1), ('row', 1), ('subset', 2), ('interior', 3),
                           ('frontier', 3)])
         if pat == 'frontier' and l >= 1:
-            # cells at the frontier of the level-l region (a neighbour of the parent is still an ACTIVE coarser
-            # cell): exactly where the disparity closure has to refine coarser cells as well
-            coarse = m.active_cells(l - 1)
-            fr = [c for c in act if any(tuple((ci >> 1) + dj for ci, dj in zip(c, off)) in coarse
-                                        for off in itertools.product((-1, 0, 1), repeat=len(c)))] or act
+            # cells at the frontier of the level-l region (a neighbour of the ancestor d levels up is still an
+            # ACTIVE coarser cell): exactly where the disparity closure has to refine coarser cells as well
+            dd = int(w.cfg['disparity']) if w.cfg['disparity'] != np.inf and l - w.cfg['disparity'] >= 0 else 1
+            fr = frontier_cells(m, l, dd) or act
             cells = [fr[i] for i in o.sample_positions(len(fr), 2)]
         elif pat in ('interior', 'frontier'):
             # one or two cells that do not touch the boundary of the domain (if there are any): what an
@@ -231,6 +230,54 @@ def marks_from_choices(w, o):
         marks[l] = sorted(set(cells))
         kinds[l] = o.pick(['set', 'list', 'tuple'])
     return marks, kinds
+
+
+def frontier_cells(m, l, d):
+    """active cells of level l whose level-(l-d) ancestor has a still ACTIVE neighbour cell on level l-d"""
+    if l - d < 0:
+        return []
+    coarse = m.active_cells(l - d)
+    return [c for c in sorted(m.active_cells(l))
+            if any(tuple((ci >> d) + dj for ci, dj in zip(c, off)) in coarse
+                   for off in itertools.product((-1, 0, 1), repeat=len(c)))]
+
+
+def deep_script(w, o):
+    """Scripted prefix for finite disparity d >= 2: build a steep hierarchy of d+2 levels by refining a cell, one of
+    its children, one of its grandchildren ..., then mark cells on the TWO deepest markable levels in ONE call
+    (levels whose difference is not a multiple of d), preferring cells whose level-(l-d) neighbourhood is still
+    active."""
+    d = int(w.cfg['disparity'])
+    w.cfg['maxlevel'] = max(w.cfg['maxlevel'], d + 2)
+    depth = min(w.cfg['maxlevel'] - 1, d + 1)       # deepest level to be marked in the last step
+
+    def step(l):
+        def fn(w, o, l=l):
+            m = w.model
+            act = sorted(m.active_cells(l))
+            if not act:
+                return None, None
+            if l - d >= 0:
+                # this call already triggers the closure d levels below: keep it local, so that other cells of
+                # this level keep a still-active coarse neighbourhood
+                cells = [act[o.choice(len(act))]]
+            else:
+                cells = [c for c in act if o.choice(2)] or [act[o.choice(len(act))]]       # a broad random subset
+            return {l: cells}, {l: o.pick(['set', 'list', 'tuple'])}
+        return fn
+
+    def two_levels(w, o):
+        m = w.model
+        marks, kinds = {}, {}
+        for l in (depth, depth - 1):
+            act = sorted(m.active_cells(l))
+            if not act:
+                continue
+            fr = frontier_cells(m, l, d) or act
+            marks[l] = sorted(set(fr[i] for i in o.sample_positions(len(fr), 2)))
+            kinds[l] = o.pick(['set', 'list', 'tuple'])
+        return (marks, kinds) if marks else (None, None)
+    return [('refine', step(l)) for l in range(depth)] + [('refine', two_levels)]
 
 
 def adaptive_script(w, o):
@@ -703,8 +750,14 @@ def run_case(ctx):
     if prop == 'C03':
         from . import hsim_c03
         aux = hsim_c03.State(w)
-    script = adaptive_script(w, o) if (cfg.get('wide') and cfg['disparity'] != np.inf and o.choice(2)) else []
-    if script:
+    script = []
+    deep_ok = cfg['disparity'] in (2, 3) and (cfg['dim'] == 1 or (
+        prop == 'C04' and cfg['dim'] == 2 and cfg['disparity'] == 2 and max(cfg['ncoarse']) <= 3 and max(cfg['degs']) <= 2))
+    if deep_ok and o.chance(60):
+        script = deep_script(w, o)
+        ctx.count('history.deep-multilevel-prefix')
+    elif cfg.get('wide') and cfg['disparity'] != np.inf and o.choice(2):
+        script = adaptive_script(w, o)
         ctx.count('history.adaptive-loop-prefix')
     for step in range(max(cfg['nops'], len(script) + 1) if script else cfg['nops']):
         forced = script.pop(0) if script else None
